@@ -42,6 +42,7 @@ def leg_t(wd, tier, binary, verdict, stub=""):
     v = H.validate_traces(wd, d["files"], verdict)
     H.cleanup(d["files"])
     d.update(v)
+    d["ovf"] = H.leg_overflow(wd, binary, verdict, stub=stub)
     return d
 
 
@@ -66,7 +67,9 @@ def run(tier):
         "replay_graph": rr["histogram"],
         "trace_validation": {k: tt[k] for k in ("traces", "events", "accepted", "rejected", "suspect")},
         "driver_counts": tt["counts"],
-        "evaluations": rr["steps"] + tt["events"], "distinct_nontrivial": rr["distinct"] + tt["traces"],
+        "amount_overflow": {"traces": tt["ovf"]["traces"], "events": tt["ovf"]["events"], "accepted": tt["ovf"]["accepted"],
+                            "rejected": tt["ovf"]["rejected"], "counts": tt["ovf"]["counts"]},
+        "evaluations": rr["steps"] + tt["ovf"]["events"] + tt["events"], "distinct_nontrivial": rr["distinct"] + tt["traces"],
         "rule": "R: one evaluation per spec transition executed on the real host (reply, recorded Contractor/Sectors calls and all balances compared), "
                 "distinct by (action, arguments, resulting state); T: one evaluation per recorded stream step validated by TLC, distinct by trace",
     }
